@@ -54,6 +54,65 @@ def val_bytes(items):
         return from_items(items)
     return bytes(items)
 
+# ---------------------------------------------------------------- composition at an ARBITRARY state (the unbounded part)
+# update(a); update(b, f)  ==  update(a||b, f)  from any chaining value and any bits-before counter, for a one-block a and
+# b = one more block (not final) or a final tail of any residue class.  With the loop contracts of iterblocks (C09
+# iterblocks/loop-step) and of the compression loop (C01/C11 update/one-block=compress) this is the induction step of
+# "the state after update() is the fold of the compression over the blocks fed so far, the counter their bit count";
+# the enumerated cut sets above are then instances.
+NH = {'md4': 4, 'md5': 4, 'sha1': 5, 'sha0': 5}
+def _set_state(h, name, H0, cnt):
+    from crysp.bits import Bits
+    w = h.wsize
+    if name.startswith('blake'): h.H = C11.mkpoly(list(H0), w)
+    else:
+        h.H = []
+        for v in H0:
+            b = Bits(0, w); b.ival = v; h.H.append(b)
+    h.padmethod.bitcnt = cnt; h.padmethod.padflag = False
+def _get_state(h, name):
+    Hs = list(h.H.ival) if name.startswith('blake') else [b.ival for b in h.H]
+    return Hs, h.padmethod.bitcnt, h.padmethod.padflag
+def _compose_cases(tier):
+    out = []
+    for name in HASHES:
+        if tier == 'quick' and name in ('sha0', 'sha224', 'sha384', 'sha512/256', 'blake224'): continue
+        bl = HASHES[name][1]; ws = bl // 8
+        out.append({'h': name, 'kind': 'mid', 't': bl}); out.append({'h': name, 'kind': 'empty', 't': 0})
+        for t in ((0, 1, bl - ws - 1, bl - ws, bl, bl + 1) if tier == 'quick' else range(0, bl + 2)):
+            if name.startswith('blake2') and t == 0: continue            # known finding (empty final piece), reported by update/piecewise==one-shot
+            out.append({'h': name, 'kind': 'fin', 't': t})
+    return out
+@obligation(P, 'update/compose/arbitrary-state', cls='L', opaque=C1.CNAMES + B.NAMES, cases=_compose_cases, timeout=300,
+            funcs=['crysp.sha.SHA1.update', 'crysp.sha.SHA2.update', 'crysp.md.MD4.update', 'crysp.md.MD5.update', 'crysp.blake.Blake.update', 'crysp.blake.Blake2.update', 'crysp.blake.Blake2.iterblocks', 'crysp.padding.blockiterator.iterblocks'],
+            note='for EVERY chaining value and every bits-before counter (a whole number of blocks): feeding one block and then a second block / a final tail '
+                 'leaves the same state, counter, flag and digest as feeding their concatenation; an empty piece changes nothing; the thorough tier takes every tail length 0..block+1')
+def _(c):
+    name, kind, t = c.case('h'), c.case('kind'), c.case('t')
+    mk, bl = HASHES[name]
+    hA = mk(); install(c, name, hA); hB = mk(); install(c, name, hB)
+    hA.initstate(); hB.initstate()
+    w = hA.wsize
+    H0 = c.words('H', NH.get(name, 8), w)
+    cnt = c.int('blocks_before', 0, 1 << 40) * (8 * bl)
+    _set_state(hA, name, H0, cnt); _set_state(hB, name, H0, cnt)
+    a = c.bytes('a', bl); b = c.bytes('b', t)
+    fin = kind == 'fin'
+    if kind == 'empty':
+        c.call(type(hA).update, hA, b'')
+        Hs, bc, pf = _get_state(hA, name)
+        c.ensure('empty/state', val.eq(Hs, list(H0))); c.ensure('empty/counter', val.eq(bc, cnt)); c.ensure('empty/flag', pf is False)
+        return
+    c.call(type(hA).update, hA, a)
+    c.ensure('counter after first piece', val.eq(hA.padmethod.bitcnt, cnt + 8 * bl))
+    outA = c.call(type(hA).update, hA, b, padding=fin)
+    outB = c.call(type(hB).update, hB, val_bytes(list(a) + list(b)), padding=fin)
+    sA, sB = _get_state(hA, name), _get_state(hB, name)
+    c.ensure('state', val.eq(sA[0], sB[0])); c.ensure('counter', val.eq(sA[1], sB[1]))
+    if not fin: c.ensure('counter-value', val.eq(sA[1], cnt + 8 * (bl + t)))       # (after a pad-only last block the counter reads 0: C09)
+    c.ensure('flag', sA[2] is sB[2] and sA[2] is fin)
+    c.ensure('output', val.eq(outA, outB))
+
 @obligation(P, 'Nilsimsa/piecewise', cls='B', bound='messages of 0..7 bytes, every cut position, two or three pieces; contents symbolic; accumulator state compared, digest of the state compared on concrete inputs',
             cases=lambda tier: [{'n': n, 'cut': cut} for n in range(0, 7 if tier == 'quick' else 9) for cut in range(0, n + 1)], funcs=['crysp.nilsimsa.Nilsimsa.update', 'crysp.nilsimsa.Nilsimsa.reset', 'crysp.nilsimsa.Nilsimsa.tran3'], timeout=300)
 def _(c):
